@@ -6,6 +6,7 @@ from common import case_line, parse_result
 from gen import rand_input, rand_bounds, DELIMS
 
 LEVEL = "proof"
+BIG_IO = lambda a: "-b" not in a        # which command lines of cases.rand_cli the large-input stream keeps
 
 
 def _run_once(chk):
